@@ -5,6 +5,7 @@
         vertices are paired only inside ONE ring/line (12 entry forms -> 13 kernels).
  C01.b  corner-order independence: in every public entry the re-orientation of both axes precedes the first use of the box and
         yields x0 <= x1, y0 <= y1 on all orderings; the _perform_* helpers are reachable only through entries that did this.
+ C01.o  the corner-in-polygon step (forward of C02.c: half-open edge rule of the crossing count).
  C01.c  form agreement: scalar, array and array-with-inds reach the same per-element routine with the whole value buffer and offsets of
         the matching level; with inds both the start and the stop offsets are gathered by it and the result has their length; multi-part
         kernels reduce their parts disjunctively.
@@ -69,6 +70,7 @@ def run(P, R, tier):
     _common.no_fastmath(P, R, 'C01.k', ['spatialpandas.geometry._algorithms.intersection', 'spatialpandas.geometry._algorithms.orientation'])
     orientation_table(P, R)
     box_edges(P, R, tier)
+    _common.forward(P, R, 'C02', ['C02.c'], 'C01.o', 'a box with no edge crossing is decided by its corner lying inside the polygon (point_intersects_polygon): the crossing count obeys one half-open edge rule', floor=1)
 
 
 # ------------------------------------------------------------------------------------------------------------------ C01.a / C01.c / C01.d
